@@ -5,6 +5,7 @@ import re
 from hypothesis import strategies as st
 
 from vlib import rivals
+from vlib import forms
 from vlib.core import Part, Violation, Discard, call
 
 from mitxgraders import StringGrader
@@ -227,7 +228,7 @@ def build(spec):
     elif via == 'expect-arg':
         arg = spec['expect']
     # via == 'none': accept modes without any answer (StringGrader.__call__ supplies the empty expect)
-    g = StringGrader(**cfg)
+    g = forms.make(StringGrader, cfg)
     rivals.after_build(g)          # vlib/rivals.py: another StringGrader with opposite flags and a pattern, used first
     return g, arg, ans_msg
 
